@@ -273,8 +273,11 @@ class Target:
         cid = struct.unpack("<I", ad)[0]
         conn = self.connections.get(cid)
         if conn is None or conn.session != fr.session:
-            if any(c.session == fr.session for c in self.connections.values()):
+            mine = [c.o2t for c in self.connections.values() if c.session == fr.session]
+            if mine:
                 self.event("C10/I1/unitdata-without-connection", f"SendUnitData for connection id {cid:#x}; open: {[hex(c) for c in self.connections]}")
+                # the client holds an open connection on this session, yet addresses another id: not "the target's connection id"
+                self.event("C11/connection-id", f"connection address item holds {cid:#x}; the connection granted to this session is {[hex(c) for c in mine]}")
             return b""  # a real target silently discards it
         if len(dd) < 2:
             self.event("C11/connected-data", "connected data item shorter than the sequence count")
